@@ -216,7 +216,7 @@ impl Run {
     let mut shown = 0;
     // triage aid: all keys with occurrence counts and one description each
     if let Ok(path) = std::env::var("VERIF_KEYS_OUT") {
-      let text: String = new_violations.iter().map(|(v, n)| format!("{}\t{}\t{}\n", n, v.key, v.what)).collect();
+      let text: String = new_violations.iter().map(|(v, n)| format!("{}\t{}\t{}\n", n, v.key, v.what.replace('\n', " / "))).collect();
       let _ = std::fs::write(&path, text);
     }
     for (v, n) in &new_violations {
